@@ -271,7 +271,8 @@ def gen_plan(rng: random.Random, tier: str) -> dict:
     big = tier == "thorough"
     cfg = {"deferred": rng.random() < 0.8, "same_ip": False, "n_viewers": 1, "regions": [[0]],
            "maxlen": rng.choice([4, 6, 10, 30]), "queue_latency": rng.choice([0.0, 0.005]),
-           "second_window": rng.random() < 0.5,
+           # another log window on the same wrapper, attached before or after ours, showing everything or only chat
+           "second_window": rng.choice([None, None, "after", "before", "before_chat"]),
            "latency_seed": rng.randrange(1 << 30), "tail": 0.4}
     n = rng.randint(6, 70 if big else 36)
     steps = [{"at": 0.05, "op": "ucc", "v": 0, "r": 0}]
@@ -352,7 +353,9 @@ def simplify_plan(plan):
     if cfg["maxlen"] != 30:
         yield {**plan, "cfg": {**cfg, "maxlen": 30}}
     if cfg.get("second_window"):
-        yield {**plan, "cfg": {**cfg, "second_window": False}}
+        yield {**plan, "cfg": {**cfg, "second_window": None}}
+        if cfg["second_window"] == "before_chat":
+            yield {**plan, "cfg": {**cfg, "second_window": "before"}}
 
 
 def run_plan(plan: dict) -> RunResult:
@@ -381,12 +384,25 @@ def run_plan(plan: dict) -> RunResult:
         state = {"session_gone": False, "seen_true": False, "seen_false": False}
 
         class ObservedLogger(FilteringMessageLogger):
-            """The real logger; add_log_entry additionally snapshots the entry for the oracle."""
+            """The real logger; only notes what add_log_entry returned."""
+
+            def add_log_entry(self, entry):
+                ret = super().add_log_entry(entry)
+                offered.append(bool(ret))
+                return ret
+
+        offered: List[bool] = []
+
+        class ObservedWrapper(WrappingMessageLogger):
+            """The real wrapper every producer logs through; each entry handed to it is snapshotted for the oracle and
+            the model of *our* window is advanced, whether or not the entry ever reached that window."""
 
             def add_log_entry(self, entry):
                 snap = take_snapshot(entry)
-                was_paused = self.paused
-                ret = super().add_log_entry(entry)
+                was_paused = flogger.paused
+                del offered[:]
+                super().add_log_entry(entry)
+                ret = offered[-1] if offered else None
                 if not was_paused:
                     serial[0] += 1
                     snap.serial = serial[0]
@@ -399,17 +415,20 @@ def run_plan(plan: dict) -> RunResult:
                         if any(gone is v for v in model["visible"]):
                             res.probe("aged_out_entry_kept_visible")
                     if stopped:
-                        return ret
+                        return
                     try:
                         snap.session_alive = entry.session is not None
                         want = eval_tree(model["tree"], snap, agent_id)
                     except Exception as e:
                         violate("HARNESS/evaluator-raised", exc=repr(e)[:200], filter=model["filter_text"])
-                        return ret
+                        return
                     if want:
                         model["visible"].append(entry)
                     gone = None
                     prune()
+                    if ret is None:
+                        return violate("C18/view/entry-never-offered-to-window", entry=snap.name, type_=snap.type,
+                                       windows=len(self.loggers))
                     if bool(ret) != want:
                         failed = [r for r in env.log.records if str(r.msg).startswith("Failed to filter queued message")]
                         if failed:
@@ -423,7 +442,6 @@ def run_plan(plan: dict) -> RunResult:
                     res.probe("paused_beside_running_window")
                     if ret:
                         violate("C18/view/logged-while-paused", entry=snap.name, type_=snap.type)
-                return ret
 
         def take_snapshot(entry) -> Snapshot:
             s = Snapshot()
@@ -455,13 +473,19 @@ def run_plan(plan: dict) -> RunResult:
             return s
 
         flogger = ObservedLogger(maxlen=cfg["maxlen"])
-        wrapper = WrappingMessageLogger()
+        wrapper = ObservedWrapper()
         wrapper.loggers.append(flogger)
         if cfg.get("second_window"):
             # the GUI attaches every log window to one wrapper: a second window that is never paused keeps the
             # wrapper as a whole un-paused while ours is
             other = FilteringMessageLogger(maxlen=50)
-            wrapper.loggers.append(other)
+            if cfg["second_window"] in ("before", "before_chat"):
+                wrapper.loggers.insert(0, other)
+                res.probe("second_log_window_attached_first")
+                if cfg["second_window"] == "before_chat":
+                    other.set_filter("Chat*")
+            else:
+                wrapper.loggers.append(other)
             res.probe("second_log_window")
         world = UdpWorld(env, cfg, logger=wrapper)
         wmodel = WireModel(world, eager=not cfg.get("deferred", True))
